@@ -260,6 +260,8 @@ PROPS = {
              "timeout": 300, "extra_modules": ["tokenizer"], "max_steps": 3000000, "quick": n <= 2}
             for n in (2, 3)
         ] + [
+            {"engine": "E2", "module": "lib", "harness": "h_api_built_model", "functions": ["new", "specification::*::new (constructor defaults)", "A2lFile::write_to_string", "load_from_string", "generated PartialEq impls"],
+             "bound": "one model built with new() / T::new() / push / field edits (RECORD_LAYOUT, COMPU_METHOD with COEFFS, MEASUREMENT with six kinds of sub-elements, CHARACTERISTIC, GROUP, FUNCTION; symbolic low address byte and symbol offset): write, strict reload equal (== and field by field), second write identical; then three edits and the same again", "timeout": 600, "extra_modules": ["tokenizer"], "max_steps": 60000000, "must_cover": ["api_built_model_end"]},
             {"engine": "E2", "module": "lib", "harness": "h_sort_new_many_children", "msg_prefix": "C01", "functions": ["A2lFile::sort_new_items", "A2lFile::write_to_string", "load_from_string"],
              "bound": "models built through the API: 10-24 placed children + up to 19 new elements over three insert / sort_new_items / write cycles: load(write(M)) == M", "timeout": 400, "extra_modules": ["tokenizer", "sort"], "max_steps": 150000000, "must_cover": ["sort_new_many_children_end"]},
             {"engine": "E2", "module": "lib", "harness": "h_ifdata_soup_known_d20", "known": "D20", "functions": ["load_from_string", "A2lFile::write_to_string"],
@@ -301,6 +303,9 @@ PROPS = {
              "bound": "0-2 blank lines before /end A2ML x 4 gaps inside an uninterpreted IF_DATA with two nested blocks, each from {space, LF, blank line, CRLF} (768 layouts)", "timeout": 600, "extra_modules": ["tokenizer"], "validate": 40, "quick": False},
             {"engine": "E2", "module": "lib", "harness": "h_layout_ifdata_small", "functions": ["load_from_string", "tokenizer::handle_a2ml", "ifdata::parse_unknown_taggedstruct", "a2ml::GenericIfData::write_item"],
              "bound": "0-2 blank lines before /end A2ML x 2 gaps (before /end INNER, before /end OUTER) from {space, LF, blank line, CRLF} (48 layouts)", "timeout": 400, "extra_modules": ["tokenizer"], "validate": 20},
+            {"engine": "E2", "module": "lib", "harness": "h_every_element_layout", "msg_prefix": "C05", "functions": ["load_from_string", "A2lFile::write_to_string", "specification::*::parse / stringify of every element (item_location slots)", "writer::Writer::add_whitespace"],
+             "bound": "the every-element document with staggered parameter positions (same line / next line / blank line in rotation; 1093 lines): reproduced byte for byte", "timeout": 900, "extra_modules": ["tokenizer"], "max_steps": 300000000,
+             "must_cover": ["generated document and fingerprint module are in place"]},
             {"engine": "E2", "module": "lib", "harness": "h_layout_sequences", "functions": ["load_from_string", "A2lFile::write_to_string", "writer::Writer::add_whitespace", "specification::{InMeasurement,CompuVtab,MemoryLayout,AnnotationText,FixAxisParList}::parse / stringify (item_location of sequences and arrays)"],
              "bound": "3 gaps between list items, each from {same line, next line, blank line}, applied to an identifier list, a value-pair list, a long[5] array, a string list and a float list (27 layouts)", "timeout": 300, "extra_modules": ["tokenizer"], "must_cover": ["layout_sequences_end"]},
             {"engine": "E2", "module": "lib", "harness": "h_every_element_roundtrip", "msg_prefix": "C05", "functions": ["load_from_string", "A2lFile::write_to_string", "writer::Writer::*", "specification::*::stringify of every element"],
@@ -417,7 +422,7 @@ PROPS = {
                         "the ~30 error_or_log call sites inside generated element parsers are reached only as far as the template exercises them"],
         "jobs": [
             {"engine": "E2", "module": "lib", "harness": "h_strict_vs_nonstrict", "functions": ["load_from_string", "parser::ParserState::parse_file", "parser::ParserState::error_or_log", "parser::ParserState::get_string", "parser::ParserState::get_identifier", "parser::ParserState::handle_multiplicity_error", "parser::ParserState::check_block_version_lower", "parser::ParserState::handle_unknown_taggedstruct_tag", "specification::Measurement::parse"],
-             "bound": "16 fault kinds (incl. missing / unknown ASAP2_VERSION, wrong end tag of A2ML / IF_DATA / an ordinary block) x {faulty element on one line, first parameter on the next line}, each loaded with strict = true and strict = false; diagnostics must name the line of the faulty token", "timeout": 300, "extra_modules": ["tokenizer"], "validate": 26},
+             "bound": "17 fault kinds (incl. missing / unknown ASAP2_VERSION, wrong end tag of A2ML / IF_DATA / an ordinary block, PROJECT without MODULE) x {faulty element on one line, first parameter on the next line}, each loaded with strict = true and strict = false; diagnostics must name the line of the faulty token", "timeout": 300, "extra_modules": ["tokenizer"], "validate": 26},
         ] + [
             {"engine": "E2", "module": "parser", "harness": h, "functions": ["parser::ParserState::handle_unknown_taggedstruct_tag", "parser::ParserState::error_or_log"],
              "bound": "unknown tag + every 1..3-lexeme soup, strictness symbolic: strict never accepts", "timeout": 300, "extra_modules": ["tokenizer"]}
@@ -492,7 +497,7 @@ PROPS = {
             {"engine": "E2", "module": "lib", "harness": "h_c20_documents", "functions": ["specification::*::parse / stringify of every element kind in the sample document and in the all-kinds module", "A2lFile::sort", "A2lFile::sort_new_items"],
              "bound": "sample document strict / non-strict; all-kinds module load, write, sort, write, sort_new_items, write (3 concrete paths)", "timeout": 900, "extra_modules": ["tokenizer"], "max_steps": 80000000, "validate": 3},
             {"engine": "E2", "module": "lib", "harness": "h_c20_faults", "functions": ["specification::Measurement::parse", "parser::ParserState::error_or_log", "load_from_string"],
-             "bound": "16 fault kinds x 2 layouts x strict / non-strict (64 documents)", "timeout": 400, "extra_modules": ["tokenizer"], "max_steps": 4000000, "validate": 10},
+             "bound": "17 fault kinds x 2 layouts x strict / non-strict (68 documents)", "timeout": 400, "extra_modules": ["tokenizer"], "max_steps": 4000000, "validate": 10},
             {"engine": "E2", "module": "lib", "harness": "h_c20_unknown_elements", "functions": ["specification::{RecordLayout,Measurement,Characteristic,AxisDescr,CompuMethod,Module}::parse (TAG_LISTs)", "parser::ParserState::handle_unknown_taggedstruct_tag"],
              "bound": "3 unknown payloads x every insertion point of the C07 document x strict / non-strict", "timeout": 600, "extra_modules": ["tokenizer"], "max_steps": 6000000, "validate": 10},
             {"engine": "E2", "module": "lib", "harness": "h_c20_every_element", "functions": ["specification::*::parse / stringify of every element of the grammar (generated document)", "load_from_string", "A2lFile::write_to_string"],
